@@ -2489,6 +2489,21 @@ def canon_flow_list(stmts, pattern=False, tail=True, loads=None):
     """guard-clause form: an `else` after a branch that always leaves the block is flattened; the leaving branch comes first;
     `if not c: A else: B` (neither leaving) becomes `if c: B else: A`; if/else assigning one target becomes a conditional expression"""
     out = []
+    if not pattern and loads is not None:
+        # if c: ..; _inlN = X  else: _inlN = Y      v = _inlN     ->   the branches assign v directly
+        k = 0
+        stmts = list(stmts)
+        while k + 1 < len(stmts):
+            a, b = stmts[k], stmts[k + 1]
+            if isinstance(a, ast.If) and isinstance(b, ast.Assign) and len(b.targets) == 1 and isinstance(b.targets[0], ast.Name) and isinstance(b.value, ast.Name) and b.value.id.startswith("_inl") and loads.get(b.value.id, 0) == 1:
+                t, v = b.value.id, b.targets[0].id
+                if not any(isinstance(n, ast.Name) and n.id == v for n in ast.walk(a)) and any(isinstance(n, ast.Name) and n.id == t and isinstance(n.ctx, ast.Store) for n in ast.walk(a)):
+                    for n in ast.walk(a):
+                        if isinstance(n, ast.Name) and n.id == t:
+                            n.id = v
+                    del stmts[k + 1]
+                    continue
+            k += 1
     if not pattern:
         stmts = _sentinel_elim(list(stmts))
         stmts = _single_use_test_temp(list(stmts), loads)
@@ -2770,7 +2785,35 @@ def _fold_sentinel_tests(tree):
                         return ast.copy_location(ast.Constant(value=isinstance(node.ops[0], ast.IsNot)), node)
             return node
     T().visit(tree)
-    # if True: X  ->  X ;  if False: X else: Y -> Y
+    _fold_constant_ifs(tree)
+
+
+def _fold_constant_ifs(tree):
+    """None is None -> True; <lambda / function of the module> is None -> False; if True: X -> X; if False: X else: Y -> Y;
+    a if True else b -> a"""
+    defs = {s.name for s in getattr(tree, "body", []) if isinstance(s, (ast.FunctionDef, ast.ClassDef))}
+    rebound = {n.id for n in ast.walk(tree) if isinstance(n, ast.Name) and isinstance(n.ctx, (ast.Store, ast.Del))} | {a.arg for a in ast.walk(tree) if isinstance(a, ast.arg)}
+
+    class T(ast.NodeTransformer):
+        def visit_Compare(self, node):
+            self.generic_visit(node)
+            if len(node.ops) == 1 and isinstance(node.ops[0], (ast.Is, ast.IsNot)) and isinstance(node.comparators[0], ast.Constant) and node.comparators[0].value is None:
+                l = node.left
+                val = None
+                if isinstance(l, ast.Constant):
+                    val = l.value is None
+                elif isinstance(l, ast.Lambda) or (isinstance(l, ast.Name) and l.id in defs and l.id not in rebound):
+                    val = False
+                if val is not None:
+                    return ast.copy_location(ast.Constant(value=val if isinstance(node.ops[0], ast.Is) else not val), node)
+            return node
+
+        def visit_IfExp(self, node):
+            self.generic_visit(node)
+            if isinstance(node.test, ast.Constant) and isinstance(node.test.value, bool):
+                return node.body if node.test.value else node.orelse
+            return node
+    T().visit(tree)
     for n in ast.walk(tree):
         for f in ("body", "orelse", "finalbody"):
             v = getattr(n, f, None)
@@ -2795,6 +2838,8 @@ def canon_flow(tree, pattern=False):
         _SENT_TEXTS.update(texts)
         if texts:
             _fold_sentinel_tests(tree)
+        else:
+            _fold_constant_ifs(tree)
     _Compare().visit(tree)
     for n in ast.walk(tree):
         for f in ("body", "orelse", "finalbody"):
